@@ -389,6 +389,9 @@ def c18() -> int:
     # is queueing at); plug-ins through instructions the LIBRARY generated (drivers) are judged, only the scripted controller's are not
     for k in ((4,) if quick else (2, 3, 4)):
         fsx(c, FIFO + ({"human": k},), ("hivemc.bundles", "c18", {}), K=3 if quick else 5, H=7 if quick else 10, needs=needs[:1])
+        # ... and the same driver when his home base stands on the station's cell and is served by that station (he then asks to
+        # charge "at home", i.e. through the base, on the plug the queue is waiting for)
+        fsx(c, FIFO + ({"human": k, "home_at_station": True},), ("hivemc.bundles", "c18", {}), K=3 if quick else 5, H=7 if quick else 10, needs=needs[:1])
     # a vehicle that is still full when it arrives at the busy station; an initial layout at time 0 with a vehicle queued since t = 0
     fsx(c, FIFO + ({"full_v1": True},), ("hivemc.bundles", "c18", {}), K=4 if quick else 5, H=9 if quick else 11, needs=needs[:1])
     fsx(c, FIFO + ({"t0": True},), ("hivemc.bundles", "c18", {}), K=3 if quick else 5, H=9 if quick else 11,
